@@ -9,6 +9,7 @@ import Driver.KeyedLock
 import Driver.CliConfig
 import Driver.RunLimit
 import Driver.IterUtils
+import Driver.HandlerStore
 
 def main (args : List String) : IO UInt32 := do
   let stdin ← IO.getStdin
@@ -23,4 +24,5 @@ def main (args : List String) : IO UInt32 := do
   | ["cliconfig"] => Drv.loop stdin Drv.CliConfig.step (CliConfig.init CliConfig.srcCfg); return 0
   | ["runlimit"] => Drv.loop stdin Drv.RunLimit.step {}; return 0
   | ["iterutils"] => Drv.loop stdin Drv.IterUtils.step .none; return 0
+  | ["handlerstore"] => Drv.loop stdin Drv.HandlerStore.step (HandlerStore.Store.init (.mem none)); return 0
   | _ => IO.eprintln "usage: wfdriver <model>"; return 2
